@@ -139,7 +139,7 @@ def exhaustive(rng, tier):
     scripts = []
     for path in (0, 1):
         for off in range(0x800):
-            s = ["bus new %s" % rng.choice(["own", "user"])]
+            s = ["bus new %s" % rng.choice(["own", "user", "capi"])]
             vs = values(rng, tier)
             if off == 0x1BE:
                 vs = [v & 7 for v in vs] + [8, 0xFFFF]
@@ -258,7 +258,7 @@ def pick_val(rng, off):
 
 
 def history(rng, n):
-    s = ["bus new %s%s" % (rng.choice(["own", "user"]), "" if rng.chance(1, 2) else " %x" % rng.below(1 << 20))]
+    s = ["bus new %s%s" % (rng.choice(["own", "user", "capi"]), "" if rng.chance(1, 2) else " %x" % rng.below(1 << 20))]
     base = 0x8000
     for _ in range(n):
         m = rng.below(100)
